@@ -41,6 +41,7 @@ func run(rt *rapid.T) {
 	m = wmkit.New(db, func(f string, a ...any) {
 		rt.Fatalf("%s\nhistory: %s", fmt.Sprintf(f, a...), m.History())
 	})
+	m.RT = rt
 	pool := wmkit.GenKeyPool(rt, gen.Uniform(rt, 2, 10, "npool"))
 	unique := wmkit.UniqueValues(rt)
 	counter := 0
@@ -91,7 +92,17 @@ func run(rt *rapid.T) {
 	var kinds []string
 	for i := gen.Uniform(rt, 0, 6, "nchanges"); i > 0; i-- {
 		es := wmkit.Entries(m.Model)
-		switch gen.Pick(rt, []string{"new-key", "change-value", "same-value", "del-readd", "delete"}, "ckind") {
+		switch gen.Pick(rt, []string{"new-key", "change-value", "change-weight", "same-value", "del-readd", "delete"}, "ckind") {
+		case "change-weight":
+			if len(es) > 0 {
+				e := gen.Pick(rt, es, "cw")
+				w := wmkit.GenWeight(rt)
+				if w == e.Weight {
+					w++
+				}
+				m.Reweigh(e, w)
+				kinds = append(kinds, "new-or-changed")
+			}
 		case "new-key":
 			ki := gen.Uniform(rt, 0, len(pool)-1, "cki")
 			m.Update(pool[ki], wmkit.GenValue(rt, ki, &counter, unique))
@@ -106,7 +117,7 @@ func run(rt *rapid.T) {
 			if len(es) > 0 {
 				e := gen.Pick(rt, es, "sv")
 				m.Logf("(rewrite same value)")
-				m.Update(e.Key, append([]byte(nil), e.Value...))
+				m.Rewrite(e)
 				kinds = append(kinds, "same-value-rewrite")
 			}
 		case "del-readd":
@@ -114,7 +125,7 @@ func run(rt *rapid.T) {
 				e := gen.Pick(rt, es, "dr")
 				m.Logf("(delete and re-add identical)")
 				m.Delete(e.Key)
-				m.Update(e.Key, append([]byte(nil), e.Value...))
+				m.Rewrite(e)
 				kinds = append(kinds, "delete-and-re-add")
 			}
 		default:
@@ -125,7 +136,13 @@ func run(rt *rapid.T) {
 		}
 	}
 	before := keysOf(db)
-	m.Commit(gen.Pick(rt, []int{0, 0, 1, 2, 3, 64}, "clevel"))
+	// an empty batch may also be "committed" by not calling Commit at all (nothing changed since the checkpoint)
+	noCommit := !m.Dirty && gen.Chance(rt, 50, "nocommit")
+	if noCommit {
+		m.Logf("(no commit: nothing changed)")
+	} else {
+		m.Commit(gen.Pick(rt, []int{0, 0, 1, 2, 3, 64}, "clevel"))
+	}
 	after := keysOf(db)
 	var created []string
 	for k := range after {
@@ -133,7 +150,7 @@ func run(rt *rapid.T) {
 			created = append(created, k)
 		}
 	}
-	gcBetween := gen.Chance(rt, 50, "gcbetween")
+	gcBetween := !noCommit && gen.Chance(rt, 50, "gcbetween")
 	if gcBetween {
 		m.GC()
 	}
@@ -204,6 +221,7 @@ func run(rt *rapid.T) {
 	add(recreated > 0, "re-created-checkpoint-node")
 	add(cpWeight == 0, "empty-checkpoint")
 	add(len(kinds) == 0, "empty-batch")
+	add(noCommit, "rollback-without-a-commit-call")
 	add(len(created) > 0, "created-new-nodes")
 	_ = cpNodes
 	ev.Case(m.History(), nt, cls...)
